@@ -217,6 +217,21 @@ def run_case(c):
                 obs["verts"] = [vec(v) for v in sm.vertices]
                 obs["uv"] = [vec(at[i]) for i in range(len(sm.vertices))]
                 obs["faces"] = [[int(x) for x in f] for f in sm.faces]
+            elif k == "gridres":
+                # the values the resolution expression of sample_AABB (shape pinned by the translator) takes in
+                # binary64, for ALL n in 0..limit: run-length encoded as [hi, r] per dimension
+                tables = {}
+                for d in c["dims"]:
+                    arr = np.power(np.arange(c["limit"] + 1), 1 / d)
+                    vals = [round(x) for x in arr]
+                    rle = []
+                    for n, r in enumerate(vals):
+                        if rle and rle[-1][1] == r:
+                            rle[-1][0] = n
+                        else:
+                            rle.append([n, int(r)])
+                    tables[str(d)] = rle if d > 1 else {"identity": all(v == n for n, v in enumerate(vals))}
+                obs["tables"] = tables
             else:
                 raise RuntimeError("unknown case kind " + k)
         finally:
